@@ -31,6 +31,7 @@ ZOO = {
     'z12_roots_s':   's[.C[..]O[..]]',                                            # headless selectable root
     'z13_res_util':  'C[U[R[.C[..]N[..]].]N[R[C[..]S[..]]u[..]].R[.U[..]]]',      # resumable regions with region-valued sub-states under utilitarian / random regions
     'z14_mix':       'R[S[N[..]R[.C[..]]]O[R[.C[..]]U[R[..].]].]',                # resumable root, random under selectable, resumable under orthogonal and utilitarian
+    'z15_units':     'C[O[..........]O[C[.C[..]]R[..].]C[..]O[........]]',        # a 10-wide orthogonal region (two bit units) declared before another one with nested regions; the last orthogonal region is exactly 8 wide
 }
 
 
@@ -67,6 +68,7 @@ WALKERS = [
     walker('z10_roots_r', 'm'), walker('z11_roots_n', ''), walker('z11_roots_n', 'mr'), walker('z12_roots_s', 'm'),
     walker('z03_orthoroot', 'mp1'), walker('z06_plans', 'p2'), walker('z08_wide', 'bp3'), walker('z11_roots_n', 'r'), walker('z04_nested', 'r'),
     walker('z13_res_util', 'm'), walker('z13_res_util', 'bp1'), walker('z14_mix', 'm'), walker('z14_mix', ''),
+    walker('z15_units', 'm'), walker('z15_units', 'b'),
 ]
 PAYLOAD_WALKERS = [w['name'] for w in WALKERS if 'HV_PAYLOAD' in ' '.join(w['defines'])]
 MANUAL_WALKERS = [w['name'] for w in WALKERS if 'HV_MANUAL' in w['defines'] and 'HV_RNG_BUILTIN' not in w['defines']]
